@@ -304,6 +304,84 @@ Definition is_realizable (b : built) (max_states max_depth : N) : bfs_out :=
     let target := marking_to_tuple net (b_MT b) in
     bfs (S (N.to_nat max_states)) net target max_states max_depth [(start, [])] [start] 0 0 0.
 
+(** * Part 4 — call HISTORIES on one PathwayRealizability object (realizability.py)
+
+    The object's mutable fields: [flow], the built net with its two markings ([_petri],
+    [_initial_marking], [_target_marking]: all three set together by [build_petri_net_from_flow] and
+    cleared together by [load_hypergraph_and_flow]) and [_certificate].  [vertices]/[edges] are fixed
+    for a history (a reload keeps them and replaces the flow). *)
+
+Record pr_state := PR { pr_flow : list Z; pr_built : option built; pr_cert : option (list N) }.
+
+Inductive pr_op :=
+| OpReal (max_states max_depth : N)    (* is_realizable(max_states, max_depth) *)
+| OpScaled (k_max : nat)               (* is_scaled_realizable(k_max) *)
+| OpCert                               (* the [certificate] property *)
+| OpBuild                              (* build_petri_net_from_flow() *)
+| OpLoad (flow : list Z).              (* load_hypergraph_and_flow(vertices, edges, flow) *)
+
+Inductive pr_ans :=
+| AReal (v : verdict)
+| AScaled (k : option N)
+| ACert (c : option (list N))
+| ADone
+| AErr.                                (* RuntimeError: Petri net not built *)
+
+Definition DEFAULT_MAX_STATES : N := 100000.
+Definition DEFAULT_MAX_DEPTH : N := 10000.
+
+Definition pr_loaded (flow : list Z) : pr_state := PR flow None None.
+
+(** [build_petri_net_from_flow]: net and markings from the CURRENT flow, certificate cleared *)
+Definition do_build (V : list N) (E : list edge) (st : pr_state) : pr_state :=
+  PR (pr_flow st) (Some (build_petri_net_from_flow V E (pr_flow st))) None.
+
+Definition set_flow (st : pr_state) (fl : list Z) : pr_state := PR fl (pr_built st) (pr_cert st).
+
+(** [is_realizable]: reads net and markings (error when not built), writes only the certificate *)
+Definition do_real (st : pr_state) (ms md : N) : pr_state * pr_ans :=
+  match pr_built st with
+  | None => (st, AErr)
+  | Some b =>
+      let v := bo_verdict (is_realizable b ms md) in
+      (PR (pr_flow st) (pr_built st) (match v with Found s => Some s | _ => None end), AReal v)
+  end.
+
+(** the [for k in range(1, k_max + 1)] loop of [is_scaled_realizable]; [n] = iterations left.
+    Each iteration overwrites the flow with k * saved, rebuilds and searches with the default bounds;
+    on success and after the loop the saved flow is restored AND the net rebuilt. *)
+Fixpoint scaled_loop (V : list N) (E : list edge) (saved : list Z) (st : pr_state) (k : N) (n : nat)
+  : pr_state * pr_ans :=
+  match n with
+  | O => (do_build V E (set_flow st saved), AScaled None)
+  | S n' =>
+      let st1 := do_build V E (set_flow st (map (Z.mul (Z.of_N k)) saved)) in
+      let '(st2, a) := do_real st1 DEFAULT_MAX_STATES DEFAULT_MAX_DEPTH in
+      match a with
+      | AReal (Found _) => (do_build V E (set_flow st2 saved), AScaled (Some k))
+      | _ => scaled_loop V E saved st2 (N.succ k) n'
+      end
+  end.
+
+Definition pr_step (V : list N) (E : list edge) (st : pr_state) (op : pr_op) : pr_state * pr_ans :=
+  match op with
+  | OpReal ms md => do_real st ms md
+  | OpScaled k_max => scaled_loop V E (pr_flow st) st 1%N k_max
+  | OpCert => (st, ACert (pr_cert st))
+  | OpBuild => (do_build V E st, ADone)
+  | OpLoad fl => (pr_loaded fl, ADone)
+  end.
+
+(** a history: the answers in call order, each with the object's state right after the call *)
+Fixpoint pr_run (V : list N) (E : list edge) (st : pr_state) (ops : list pr_op) : list (pr_ans * pr_state) :=
+  match ops with
+  | [] => []
+  | op :: ops' => let '(st', a) := pr_step V E st op in (a, st') :: pr_run V E st' ops'
+  end.
+
+Definition pr_exec (V : list N) (E : list edge) (st : pr_state) (ops : list pr_op) : pr_state :=
+  fold_left (fun s op => fst (pr_step V E s op)) ops st.
+
 (** * Observables (DESIGN Appendix B, C20) *)
 
 Definition tnset (l : list nat) : tok := tset tnat l.
@@ -359,3 +437,27 @@ Definition run_flow (vertices : list N) (edges : list edge) (flow : list Z) (max
       match bo_verdict r with Found s => L [tlist tN s] | _ => L [] end;
       tbool true;
       tN (bo_nen r); tN (bo_nfire r) ].
+
+Definition tcert (c : option (list N)) : tok := match c with Some s => L [tlist tN s] | None => L [] end.
+
+Definition tans (a : pr_ans) : tok :=
+  match a with
+  | AReal v => L [I 1; match v with Found _ => I 1 | NotFound => I 0 | OutOfFuel => I 2 end;
+                  match v with Found s => L [tlist tN s] | _ => L [] end]
+  | AScaled k => L [I 2; match k with Some _ => I 1 | None => I 0 end; match k with Some k => tN k | None => I 0 end]
+  | ACert c => L [I 3; tcert c]
+  | ADone => L [I 4]
+  | AErr => L [I 9]
+  end.
+
+Definition tstate (st : pr_state) : tok :=
+  L [ tlist I (pr_flow st);
+      match pr_built st with
+      | None => L []
+      | Some b => L [tset tN (pn_places (b_net b)); tdict (b_M0 b); tdict (b_MT b)]
+      end;
+      tcert (pr_cert st) ].
+
+Definition run_hist (vertices : list N) (edges : list edge) (flow : list Z) (ops : list pr_op) : tok :=
+  tlist (fun ast : pr_ans * pr_state => L [tans (fst ast); tstate (snd ast)])
+        (pr_run vertices edges (pr_loaded flow) ops).
